@@ -24,7 +24,7 @@ TRUSTED = ['Lean 4.33 kernel', 'axioms: propext, Classical.choice, Quot.sound', 
            'numpy.linalg.eigvalsh / matrix_rank in the probe (contract)',
            'modelled, not verified: numqi/state/_internal.py, entangle/upb.py, dicke.py, utils.get_tetrahedron_POVM, unique_determine.get_chebshev_orthonormal',
            'literature, not proved: unextendibility of the UPBs; optimality of the closed-form REE/EOF/GME values']
-OPEN_STATEMENTS = ['Numqi.C18.Eprobe9Unitary.Statement']   # eq9 bases unitary for every even dim (proved for dim <= 12)
+OPEN_STATEMENTS = ['Numqi.C18.Eprobe9Unitary.Statement']   # eq9 bases unitary for every even dim (proved for even dim 4..12)
 
 
 def f2b(x):
@@ -280,6 +280,8 @@ def _correspondence_main(ctx):
                                  ('get_Isotropic_GME', 'igme', iso_grid(ctx, d)), ('get_Isotropic_eof', 'ieof', iso_grid(ctx, d))]:
             g = [float(min(1.0, x)) for x in grid]
             g = g[:(len(g) // 4) * 4]
+            if not g:
+                cmp(ctx, f'C18 {opn}-array {d}', False, 'a grid of at least 4 values', 'empty grid', key=f'{opn}-array'); continue
             ops_a = [f'C18 {opn} {d} {f2b(a)}' for a in g]
             mo = common.run_model(ops_a)
             for shape_tag, arr in [('1d', np.array(g)), ('2d', np.array(g).reshape(4, -1)), ('3d', np.array(g).reshape(2, 2, -1))]:
@@ -841,14 +843,41 @@ def probe(ctx):
             else:
                 ctx.probe_ok((name, 'ree-sdp', d, a))
 
-    # load_upb options never driven elsewhere: random sixparam (args=None), the warning branch, unknown kinds, upper-case kind
-    import io, contextlib
-    buf = io.StringIO()
-    with contextlib.redirect_stdout(buf):
-        r = guarded(lambda: (numqi.entangle.load_upb('sixparam', return_product=True), numqi.entangle.load_upb('sixparam', (np.pi / 2, 1.0, 0.3, 1.0, 1.0, 0.2), return_product=True),
-                             numqi.entangle.load_upb('TILES', return_product=True), numqi.entangle.load_upb('tiles', return_product=True)))
-    if isinstance(r, str) or amax(r[0].conj() @ r[0].T - np.eye(5)) > 1e-10 or r[1].shape != (5, 9) or amax(r[2] - r[3]) > 0 or 'WARNING' not in buf.getvalue():
-        ctx.fail('upb-options', f'load_upb options: random sixparam not orthonormal, missing degenerate-parameter warning, or kind not case-insensitive: {r if isinstance(r, str) else buf.getvalue()[:80]}', dict(op='load_upb', kind='sixparam', args=None))
+    # load_upb options never driven elsewhere: random sixparam (args=None), the degenerate-parameter notice, unknown kinds, upper-case kind.
+    # The notice may come through any channel (print to stdout/stderr, warnings.warn, logging): only "something is said for the degenerate
+    # parameter gamma_A = pi/2 and nothing for a generic one" is demanded, not a particular text.
+    import io, contextlib, warnings, logging
+
+    def with_notices(f):
+        out, err, recs = io.StringIO(), io.StringIO(), []
+
+        class H(logging.Handler):
+            def emit(self, record):
+                recs.append(record.getMessage())
+        h = H(level=logging.DEBUG); root = logging.getLogger(); lvl = root.level
+        root.addHandler(h); root.setLevel(logging.DEBUG)
+        try:
+            with contextlib.redirect_stdout(out), contextlib.redirect_stderr(err), warnings.catch_warnings(record=True) as w:
+                warnings.simplefilter('always')
+                r = guarded(f)
+        finally:
+            root.removeHandler(h); root.setLevel(lvl)
+        return r, (out.getvalue() + err.getvalue() + ' '.join(str(x.message) for x in w) + ' '.join(recs)).strip()
+    degenerate, generic = (np.pi / 2, 1.0, 0.3, 1.0, 1.0, 0.2), (0.7, 1.0, 0.3, 1.0, 1.0, 0.2)
+    r, _ = with_notices(lambda: (numqi.entangle.load_upb('sixparam', return_product=True), numqi.entangle.load_upb('TILES', return_product=True), numqi.entangle.load_upb('tiles', return_product=True)))
+    rd, said_d = with_notices(lambda: numqi.entangle.load_upb('sixparam', degenerate, return_product=True))
+    rg, said_g = with_notices(lambda: numqi.entangle.load_upb('sixparam', generic, return_product=True))
+    bad = []
+    if isinstance(r, str) or isinstance(rd, str) or isinstance(rg, str):
+        bad.append(f'raised: {[x for x in (r, rd, rg) if isinstance(x, str)]}')
+    else:
+        if amax(r[0].conj() @ r[0].T - np.eye(5)) > 1e-10: bad.append('random sixparam (args=None) not orthonormal')
+        if rd.shape != (5, 9) or rg.shape != (5, 9): bad.append(f'shapes {rd.shape}, {rg.shape}')
+        if amax(r[1] - r[2]) > 0: bad.append('kind not case-insensitive')
+        if not said_d: bad.append('no notice (stdout / stderr / warnings / logging) for the degenerate parameter gamma_A = pi/2, where the set is not a UPB')
+        if said_g: bad.append(f'a notice for a generic parameter: {said_g[:80]!r}')
+    if bad:
+        ctx.fail('upb-options', 'load_upb options: ' + '; '.join(bad), dict(op='load_upb', kind='sixparam', degenerate=list(degenerate), generic=list(generic)))
     else:
         ctx.probe_ok('upb-options')
     for kind in ['john2^8', 'nosuchkind']:
